@@ -76,6 +76,12 @@ Definition siv_k48 : N := 48.
 Definition siv_k64 : N := 64.
 Definition siv_key_prim : N := 64.                 (* AESSIVKeySize *)
 
+(* ---- ChaCha20-Poly1305 / XChaCha20-Poly1305 / X-AES-GCM: aead/{chacha20poly1305,xchacha20poly1305,xaesgcm}/key.go ---- *)
+Definition chacha_key_size : N := 32.
+Definition xaes_key_size : N := 32.
+Definition xaes_min_salt : N := 8.
+Definition xaes_max_salt : N := 12.
+
 (* ---- PRFs: prf/*/parameters.go; prf/subtle/{hkdf,hmac,aes_cmac}.go ---- *)
 Definition hkdf_min_key_parse : N := 16.
 Definition hkdf_min_key_prim : N := 32.            (* minHKDFKeySizeInBytes *)
@@ -111,14 +117,14 @@ Definition url_ecdsa_pub := "type.googleapis.com/google.crypto.tink.EcdsaPublicK
 Definition url_ecdsa_priv := "type.googleapis.com/google.crypto.tink.EcdsaPrivateKey".
 Definition url_rsa_pkcs1_pub := "type.googleapis.com/google.crypto.tink.RsaSsaPkcs1PublicKey".
 Definition url_rsa_pss_pub := "type.googleapis.com/google.crypto.tink.RsaSsaPssPublicKey".
+Definition url_chacha := "type.googleapis.com/google.crypto.tink.ChaCha20Poly1305Key".
+Definition url_xchacha := "type.googleapis.com/google.crypto.tink.XChaCha20Poly1305Key".
+Definition url_xaes_gcm := "type.googleapis.com/google.crypto.tink.XAesGcmKey".
 
 (* ---- type URLs that have a registered key parser (RegisterKeyParser) which
    this model does not transcribe; keysets containing them are decided by the
    direct check only ---- *)
 Definition unmodelled_urls : list string := (
-  "type.googleapis.com/google.crypto.tink.ChaCha20Poly1305Key" ::
-  "type.googleapis.com/google.crypto.tink.XChaCha20Poly1305Key" ::
-  "type.googleapis.com/google.crypto.tink.XAesGcmKey" ::
   "type.googleapis.com/google.crypto.tink.AesCtrHmacStreamingKey" ::
   "type.googleapis.com/google.crypto.tink.AesGcmHkdfStreamingKey" ::
   "type.googleapis.com/google.crypto.tink.EciesAeadHkdfPublicKey" ::
